@@ -134,6 +134,8 @@ class Origins:
                 return repr(o["str"])
             if "fn" in o:
                 return "fn:" + o["fn"]["path"]
+            if o.get("static"):
+                return "static(%s)" % o["static"]
             return o.get("named") or o.get("text", "const").replace("const ", "")
         return "?"
 
